@@ -355,6 +355,17 @@ class Read(Suite):
                               "type": ty, "content_len": len(data), "content_sha1": hashlib.sha1(data).hexdigest(), "by": "git"})
         finally:
             shutil.rmtree(tmp, ignore_errors=True)
+        if tier == "thorough":
+            # small-scope exhaustion of the size field: every text of length <= 3 over the bytes the two parsers treat specially
+            from vf.gen import all_strings
+            for sz in all_strings(b"019+-_ ", 3):
+                raw = b"blob " + sz + b"\0ab"
+                cases.append({"bucket": "hand/enum-size", "kind": "read", "fmt": "sha1", "oid": hashlib.sha1(raw).hexdigest(),
+                              "loose": zlib.compress(raw, 1).hex(), "by": "hand"})
+            for ty in all_strings(b"blo t", 4):
+                raw = ty + b" 2\0ab"
+                cases.append({"bucket": "hand/enum-type", "kind": "read", "fmt": "sha1", "oid": hashlib.sha1(raw).hexdigest(),
+                              "loose": zlib.compress(raw, 1).hex(), "by": "hand"})
         # hand-made headers: what the reader accepts / refuses (model comparison, and S vs git in extra)
         for _ in range(n - ngit):
             raw, b = malformed(rng)
